@@ -23,6 +23,9 @@ FLODYM_MODULES = [
     "flodym.stock_helper",
     "flodym.flow_naming",
     "flodym.mfa_definition",
+    "flodym.export.array_plotter",
+    "flodym.export.sankey",
+    "flodym.export.data_writer",
 ]
 
 
